@@ -273,7 +273,7 @@ PROPS = {
         "required_theorems": ["c11_fir_any_chunking", "c11_fir_sliding", "c11_fir_eq_conv", "c11_kernels_agree",
                               "c11_fft_size", "c11_ola_eq_conv", "c11_fft_eq_fir_delayed", "c11_iir_recurrence",
                               "c11_single_pole", "c11_lowpass_hamming", "c11_lowpass_blackman", "c11_hilbert_taps",
-                              "c11_fm_identities", "c11_iir_clamped", "c11_fft_block"],
+                              "c11_fm_identities", "c11_iir_clamped", "c11_fft_block", "c11_hilbert_block"],
         "runs": [
             {"sub": "blocks", "quick": ["--seed", "{seed}", "--set", "dsp", "--cases", 900, "--steps", 30, "--tag-heavy", 1],
              "thorough": ["--seed", "{seed}", "--set", "dsp", "--cases", 40000, "--steps", 60, "--tag-heavy", 1],
